@@ -45,7 +45,15 @@ fn main() {
     let mut lines: Vec<String> = vec![];
     let stats;
     let variant = arg(&args, "--variant").unwrap_or_default();
-    if comp == "health" {
+    if comp == "chaos" {
+        let (nr, ne) = if mode == "replay" {
+            let input = std::fs::read_to_string(arg(&args, "--in").expect("--in")).expect("read input");
+            adapters::chaos::replay(&input, &mut lines)
+        } else {
+            adapters::chaos::run_chaos(seed, size, &mut lines)
+        };
+        stats = RunStats { runs: nr, events: ne, skipped: 0 };
+    } else if comp == "health" {
         let (nr, ne) = if mode == "replay" {
             let input = std::fs::read_to_string(arg(&args, "--in").expect("--in")).expect("read input");
             adapters::health::replay(&input, &mut lines)
